@@ -329,12 +329,10 @@ def setByIndex (o : Obj) (name : String) (v : AVal) (i : Nat) : R Obj :=
 
 /-! ### `_delete_attribute_from_managed_object` -/
 
-/-- Python `list.pop(i)` for `i < len` (negative indices count from the end). -/
+/-- `if 0 <= i < len(l): l.pop(i)` else Item Not Found -/
 def popAt {α} (l : List α) (i : Int) : R (List α) :=
-  if i ≥ 0 then pure (l.eraseIdx i.toNat)
-  else
-    let j : Int := (l.length : Int) + i
-    if j ≥ 0 then pure (l.eraseIdx j.toNat) else ierr "pop index out of range"
+  if 0 ≤ i && i < l.length then pure (l.eraseIdx i.toNat)
+  else kerr Rsn.itemNotFound "Could not locate the attribute instance with the specified index"
 
 def eraseFirst {α} [BEq α] : List α → α → List α
   | [], _ => []
@@ -348,13 +346,11 @@ def delGeneric {α} [BEq α] (l : List α) (value : Option α) (valueTruthy : Bo
       else kerr Rsn.itemNotFound "Could not locate the attribute instance with the specified value"
     else
       match index with
-      | some i => if i < l.length then popAt l i
-                  else kerr Rsn.itemNotFound "Could not locate the attribute instance with the specified index"
+      | some i => popAt l i
       | none => pure []
   | none =>
     match index with
-    | some i => if i < l.length then popAt l i
-                else kerr Rsn.itemNotFound "Could not locate the attribute instance with the specified index"
+    | some i => popAt l i
     | none => pure []
 
 /-- `(attribute_name, attribute_index, attribute_value)` -/
